@@ -402,7 +402,7 @@ def gen_cases(rng, tier):
     extra = ['load %d' % k for k in range(9)] * (2 if quick else 4)
     extra += ['conc %d %d' % (t, n) for t in (2, 4) for n in ((30, 60) if quick else (30, 60, 120, 250))] * (8 if quick else 16)
     # repeated loads under a lowered descriptor limit; first-use races on cold (validate=false) stores
-    extra += ['many %d' % n for n in ((6, 10) if quick else (6, 10, 40, 80))] * 2
+    extra += ['many %d' % n for n in ((6, 10) if quick else (6, 10, 12, 16))] * (2 if quick else 6)   # one case stays well below the 20 s watchdog
     extra += ['race %d %d' % (t, r) for t in (2, 4) for r in ((3, 5) if quick else (3, 5, 10))] * (4 if quick else 8)
     rng.shuffle(extra)
     every = max(1, len(inner) // len(extra))
@@ -687,12 +687,15 @@ LEVEL_TEXT = ('Coq theorems over an executable model of the PID message codec an
               '(c14_serialize_stateless, c14_inflate_stateless) and the serializer stays inside its buffer '
               '(c14_serialize_in_bounds); the loader model, run on the data files as the real protobuf parser reads '
               'them, yields exactly the tables the real loader built (c14_loader_model_shipped) and whatever it accepts '
-              'has unique (manufacturer, PID) keys and consistent frame formats (c14_loader_model_rules, '
+              'has unique (manufacturer, PID) keys, consistent frame formats, unique names per store unless a manufacturer '
+              'block is numbered 0, and merges overrides first / skip-if-present so that no main definition vanishes '
+              '(c14_loader_model_rules, c14_loader_model_names, c14_loader_merge, c14_loader_model_overrides_shipped, '
               'c14_loader_rules, c14_store_lookup, c14_override_semantics); every shipped descriptor is well-formed '
               '(c14_shipped). PARTIAL: a boolean byte >= 2 re-encodes as 1 (c14_bool_refuted, known finding), so the '
               'byte-exact statement is proved under the guard that boolean bytes are 0/1 (c14_roundtrip). Not proved, '
               'correspondence only: stability of a second decode, statelessness / thread independence of the C++ '
-              'objects, overrides.proto handling of the real loader, PidStoreHelper.')
+              'objects, PidStoreHelper; the real loader with overrides.proto is tied to the loader model by the ldo '
+              'correspondence (generated overrides), not by a regenerated table.')
 LEVEL_NOTE = ('Trusted: Coq kernel (vm_compute for the finite check over the exported descriptors), extraction '
               '(ExtrOcamlBasic), the exporter that prints the loaded store as Gallina, OCaml/C++ glue, generator '
               'coverage; model = code is validated by differential testing (ASan/UBSan build of the working '
